@@ -924,6 +924,10 @@ def _f05_models(po, pp):
     io, ip = ref.level_ids(no, "o"), ref.level_ids(np_, "p")
     if io == ip or not set(io) & set(ip):
         return False
+    if len(no) <= 2 and no == np_ and [tuple(r) for r in po["rows"]] == [tuple(r) for r in pp["rows"]]:
+        # unnamed levels, identical keys row by row: the un-joined operands happen to be a valid alignment
+        # (with > 2 levels the skipped join still ends in a KeyError inside reorder_levels)
+        return False
     oc, pc = ref.positional_codes(io, [tuple(r) for r in po["rows"]], ip, [tuple(r) for r in pp["rows"]])
     return oc == pc
 
